@@ -102,7 +102,8 @@ func Copy(ctx context.Context, srcRoot, src, dstRoot, dst string, opts ...Opt) e
 		modeSet = &ms
 	}
 
-	dst, err := fs.RootPath(dstRoot, filepath.Clean(dst))
+	dstArg := filepath.Clean(dst)
+	dst, err := fs.RootPath(dstRoot, dstArg)
 	if err != nil {
 		return err
 	}
@@ -124,10 +125,18 @@ func Copy(ctx context.Context, srcRoot, src, dstRoot, dst string, opts ...Opt) e
 		srcs = matches
 	}
 
-	for _, src := range srcs {
+	for i, src := range srcs {
 		srcFollowed, err := rootPath(srcRoot, src, ci.FollowLinks)
 		if err != nil {
 			return err
+		}
+		if i > 0 {
+			// an earlier match may have put a symlink at the destination: resolve it again
+			// inside dstRoot instead of writing through it
+			dst, err = fs.RootPath(dstRoot, dstArg)
+			if err != nil {
+				return err
+			}
 		}
 		dst, createdDirs, err := c.prepareTargetDir(srcFollowed, src, dst, ci.CopyDirContents)
 		if err != nil {
